@@ -106,6 +106,10 @@ pub const REGISTRY: &[Prop] = &[
 pub fn fuzz_entry(target: &str, data: &[u8]) {
     let out = match target {
         "c02_bytes" => c02_encodings::fuzz_bytes(data),
+        "c10_decode" => c10_relay_frames::fuzz_decode(data),
+        "c12_request" => c12_auth_token::fuzz_request(data),
+        "c31_txt" => c31_endpoint_info::fuzz_txt(data),
+        "c32_wire" => c32_signed_packet::fuzz_wire(data),
         other => panic!("unknown fuzz target {other}"),
     };
     if let crate::engine::Outcome::Violation { signature, detail } = out {
